@@ -6,10 +6,12 @@
    SpscRing and of SampleStreamSource::{try_send, send, send_many, clone, drop},
    SampleStreamTrack::{recv, stop}; `run s0 sched` executes an arbitrary schedule (list of thread
    ids, any length); thread 0 = consumer, 1 = a thread calling stop(), 2 = the producer.
+   Programs may mix the track operations, the pipeline-queue operations (ORecvQ, ODropTx; send and
+   try_send are the same protocol), send_many and cancelled recv() calls (ORecvC / ORecvQC).
    cfg_ok: 1 <= capacity < word modulus, (capacity | modulus) \/ fewer samples than the modulus,
    and the bare-ring pop is not mixed with the drop-oldest send. *)
 From Coq Require Import ZArith List Bool.
-From RV Require Import Model.SpscSkel Model.Spsc Gen.SpscProg Proofs.SpscProofs.
+From RV Require Import Model.SpscSkel Model.Spsc Gen.SpscProg Proofs.SpscProofs Proofs.SpscClose.
 Import ListNotations.
 Open Scope Z_scope.
 
@@ -103,13 +105,14 @@ Theorem C20_closed_is_final : forall capacity w cprog nstop pprog sched,
   closed (shd s) = true -> exists p, prods s = [p] /\ p_handles p = 0 /\ p_quiet p = true.
 Proof. exact spsc_closed_is_final. Qed.
 
-(* a registered, not yet woken consumer always has the notify_waiters() of a close / stop ahead *)
+(* a registered, not yet woken consumer (track recv or pipeline recv) always has the
+   notify_waiters() of a close ahead; for the track also that of a stop() *)
 Theorem C20_no_lost_wakeup : forall capacity w cprog nstop pprog sched,
   cfg_ok capacity w cprog pprog ->
   let s := run (init capacity w cprog nstop [pprog]) sched in
-  c_pc (cons s) = CRvWaiting -> woken (shd s) = false ->
+  c_is_waiting (cons s) = true -> woken (shd s) = false ->
   (closed (shd s) = true -> exists p, prods s = [p] /\ p_pc p = PDropNotify) /\
-  (stopped (shd s) = true -> s_pc (stp s) = SNotify).
+  (c_pc (cons s) = CRvWaiting -> stopped (shd s) = true -> s_pc (stp s) = SNotify).
 Proof. exact spsc_no_lost_wakeup. Qed.
 
 Theorem C20_consumer_enabled_after_close : forall capacity w cprog nstop pprog sched,
@@ -128,23 +131,6 @@ Theorem C20_recv_terminates_after_close : forall capacity w cprog nstop pprog sc
   closed (shd s) = true -> prods s = [p] -> p_pc p = PIdle ->
   exists k, (k <= 20)%nat /\ c_pc (cons (run s (repeat 0%nat k))) = CIdle.
 Proof. exact spsc_recv_terminates_after_close_20. Qed.
-
-(* ---- listed finding F22 (class multi_producer_shared_source): two producer threads *)
-Theorem C20_mpsc_refuted :
-  exists (progs : list (list pop_)) sched,
-    length progs = 2%nat /\
-    ub (shd (run (init 2 (2 ^ 64) [ORecv; ORecv; ORecv] 0 progs) sched)) <> None.
-Proof. exact mpsc_refuted. Qed.
-
-Theorem C20_mpsc_lost_sample :
-  let s := run mpsc_cfg mpsc_sched_loss in
-  map p_rets (prods s) = [[RSendOk]; [RSendOk]] /\ received s = [20] /\ head (shd s) = tail (shd s).
-Proof. exact mpsc_loss_witness. Qed.
-
-Theorem C20_mpsc_reads_moved_out_slot :
-  let s := run mpsc_cfg2 mpsc_sched_uninit in
-  ub (shd s) = Some UbReadUninit /\ received s = [1; 2; 9] /\ tail (shd s) < head (shd s).
-Proof. exact mpsc_uninit_witness. Qed.
 
 (* ---- the divisibility / bound hypothesis of cfg_ok cannot be dropped (toy 2-bit word) *)
 Theorem C20_index_wrap_refuted : ub (shd (run_ops wrap_cfg [2;2;2;0;0;2;2]%nat)) = Some UbOverwrite.
